@@ -185,6 +185,12 @@ func (e *Engine) harnessAPI(name string, args []Value, fn *ssa.Function) (Value,
 			}
 		}
 		return e.c64(uint64(c)), true
+	case "vOr":
+		return tt.Or(args[0].(*Term), args[1].(*Term)), true
+	case "vAnd":
+		return tt.And(args[0].(*Term), args[1].(*Term)), true
+	case "vImplies":
+		return tt.Implies(args[0].(*Term), args[1].(*Term)), true
 	case "vNote":
 		return nil, true
 	}
